@@ -167,6 +167,53 @@ Fixpoint ok_nv (itemsNow : list (N * labels)) (ops : list nv_op) (outs : list (s
       end
   end.
 
+(* iterEndpointCandidates: every endpoint whose effective labels make the selector true must be a candidate; only
+   known endpoints are candidates; none twice *)
+Inductive np_op :=
+| NpEndpoint (e : N) (L : labels) (ps : list N)
+| NpDelEndpoint (e : N)
+| NpParent (p : N) (L : labels)
+| NpDelParent (p : N)
+| NpQuery (a : ast).
+
+Definition np_eff (pars : list (N * labels)) (L : labels) (ps : list N) : labels :=
+  effective L (map (fun p => odflt [] (nlookup p pars)) ps).
+
+Fixpoint ok_np (eps : list (N * (labels * list N))) (pars : list (N * labels)) (ops : list np_op) (outs : list (list N)) : bool :=
+  match ops with
+  | [] => is_nil outs
+  | NpEndpoint e L ps :: ops' => ok_np (nupd e (L, ps) eps) pars ops' outs
+  | NpDelEndpoint e :: ops' => ok_np (ndel e eps) pars ops' outs
+  | NpParent p L :: ops' => ok_np eps (nupd p L pars) ops' outs
+  | NpDelParent p :: ops' => ok_np eps (ndel p pars) ops' outs
+  | NpQuery a :: ops' =>
+      match outs with
+      | [] => false
+      | out :: outs' =>
+          forallb (fun e => implb (eval a (np_eff pars (fst (snd e)) (snd (snd e)))) (memN (fst e) out)) eps
+          && nodup_sorted out
+          && forallb (fun id => is_some (nlookup id eps)) out
+          && ok_np eps pars ops' outs'
+      end
+  end.
+
+(* the model side: the candidates iterEndpointCandidates may produce, one per iteration order of the restrictions *)
+Fixpoint np_model (eps : list (N * (labels * list N))) (pars : list (N * labels)) (ops : list np_op) (outs : list (list N)) : bool :=
+  match ops with
+  | [] => is_nil outs
+  | NpEndpoint e L ps :: ops' => np_model (nupd e (L, ps) eps) pars ops' outs
+  | NpDelEndpoint e :: ops' => np_model (ndel e eps) pars ops' outs
+  | NpParent p L :: ops' => np_model eps (nupd p L pars) ops' outs
+  | NpDelParent p :: ops' => np_model eps (ndel p pars) ops' outs
+  | NpQuery a :: ops' =>
+      match outs with
+      | [] => false
+      | out :: outs' =>
+          existsb (fun R => nlist_eqb (nsort_dup (iter_candidates pest_exact (np_of eps pars) R)) out) (perms (restrictions a))
+          && np_model eps pars ops' outs'
+      end
+  end.
+
 (* ------------------------------------------------------------------ cases written by the Go driver *)
 
 Inductive case :=
@@ -176,8 +223,14 @@ Inductive case :=
     (* a parsed selector, its real LabelRestrictions(), label maps and the real Evaluate on each *)
 | CRi (ops : list ri_op) (outs : list (list N))
     (* real LabelRestrictionIndex: AllPotentialMatches output (sorted id set) of every query *)
-| CNv (ops : list nv_op) (outs : list (strat * list N)).
+| CNv (ops : list nv_op) (outs : list (strat * list N))
     (* real LabelNameValueIndex: strategy name and sorted scan output of every query *)
+| CNp (ops : list np_op) (outs : list (list N))
+    (* real SelectorAndNamedPortIndex: sorted output of iterEndpointCandidates for every queried selector *)
+| CCrash (ops : list np_op)
+    (* the real SelectorAndNamedPortIndex PANICKED while executing this (valid) history *)
+| CPanic (stream : bytes).
+    (* the real code panicked in one of the other streams (name of the stream) *)
 
 Definition strat_out_eqb (a b : strat * list N) : bool := strat_eqb (fst a) (fst b) && nlist_eqb (snd a) (snd b).
 
@@ -196,4 +249,7 @@ Definition check_case (c : case) : bool * bool :=
        zipb (fun L e => implb e (satisfies_b real L)) maps evals)
   | CRi ops outs => (list_eqb nlist_eqb (ri_run ri_empty ops) outs, ok_ri [] ops outs)
   | CNv ops outs => (list_eqb strat_out_eqb (nv_run nv_empty ops) outs, ok_nv [] ops outs)
+  | CNp ops outs => (np_model [] [] ops outs, ok_np [] [] ops outs)
+  | CCrash _ => (false, false)       (* an index that dies answers no query: never acceptable on a valid history *)
+  | CPanic _ => (false, false)
   end.
